@@ -769,16 +769,46 @@ func c15R3R4(p *core.Program, r *core.Report, evalCWV, numCmp, dateCmp, textCmp 
 	// must not fall through to a field that happens to have the same key)
 	{
 		nF := 0
-		core.EachInstr(qp, false, func(_ *ssa.Function, in ssa.Instruction) {
-			var m ssa.Value
-			switch x := in.(type) {
-			case *ssa.Lookup:
-				m = x.X
-			default:
-				return
+		// the lookups in QueryProperty itself, and the calls of helpers of the package that do the lookup for it
+		isFieldsLookup := func(in ssa.Instruction) bool {
+			x, ok := in.(*ssa.Lookup)
+			if !ok {
+				return false
 			}
-			if _, isMap := m.Type().Underlying().(*types.Map); !isMap || !strings.HasSuffix(canon(m), ".fields") {
-				return
+			_, isMap := x.X.Type().Underlying().(*types.Map)
+			return isMap && strings.HasSuffix(canon(x.X), ".fields")
+		}
+		var looksUp func(fn *ssa.Function, depth int) bool
+		looksUp = func(fn *ssa.Function, depth int) bool {
+			found := false
+			core.EachInstr(fn, false, func(_ *ssa.Function, in ssa.Instruction) {
+				if isFieldsLookup(in) {
+					found = true
+				}
+				if ci, ok := in.(ssa.CallInstruction); ok && depth < 2 {
+					if g := ci.Common().StaticCallee(); g != nil && len(g.Blocks) > 0 && core.FuncPkgPath(g) == core.FuncPkgPath(qp) && g != qp && looksUp(g, depth+1) {
+						found = true
+					}
+				}
+			})
+			return found
+		}
+		core.EachInstr(qp, false, func(_ *ssa.Function, in ssa.Instruction) {
+			if !isFieldsLookup(in) {
+				ci, ok := in.(ssa.CallInstruction)
+				if !ok {
+					return
+				}
+				g := ci.Common().StaticCallee()
+				handsFields := false // ... or are handed the fields map to do it
+				for _, a := range ci.Common().Args {
+					if _, isMap := a.Type().Underlying().(*types.Map); isMap && strings.HasSuffix(canon(a), ".fields") {
+						handsFields = true
+					}
+				}
+				if g == nil || len(g.Blocks) == 0 || core.FuncPkgPath(g) != core.FuncPkgPath(qp) || g == qp || !(looksUp(g, 1) || handsFields) {
+					return
+				}
 			}
 			nF++
 			excluded := map[string]bool{}
@@ -1012,19 +1042,56 @@ func c15R5(p *core.Program, r *core.Report, evalNode *ssa.Function) {
 		return
 	}
 	sameOp := false
-	core.EachInstr(simp, false, func(_ *ssa.Function, in ssa.Instruction) {
-		bo, ok := in.(*ssa.BinOp)
-		if !ok || bo.Op != token.EQL {
-			return
+	// the flattening may be written in Simplify or in a helper of the package it calls (handed the operator)
+	hosts := []*ssa.Function{simp}
+	opParams := map[*ssa.Parameter]bool{} // parameters of a helper that receive the combination's own operator
+	isOpField := func(v ssa.Value) bool {
+		u, ok := v.(*ssa.UnOp)
+		return ok && core.FieldAddrVar(u.X) != nil && core.FieldAddrVar(u.X).Name() == "op"
+	}
+	for _, cs := range core.Calls(simp, false) {
+		g := cs.Common().StaticCallee()
+		if cs.Common().IsInvoke() || g == nil || g == simp || len(g.Blocks) == 0 || core.FuncPkgPath(g) != core.FuncPkgPath(simp) {
+			continue
 		}
-		isOpField := func(v ssa.Value) bool {
-			u, ok := v.(*ssa.UnOp)
-			return ok && core.FieldAddrVar(u.X) != nil && core.FieldAddrVar(u.X).Name() == "op"
+		hosts = append(hosts, g)
+		for i, a := range cs.Common().Args {
+			if i < len(g.Params) && isOpField(a) {
+				opParams[g.Params[i]] = true
+			}
 		}
-		if isOpField(bo.X) && isOpField(bo.Y) {
-			sameOp = true
+	}
+	isOp := func(v ssa.Value) bool {
+		if par, ok := v.(*ssa.Parameter); ok && opParams[par] {
+			return true
 		}
-	})
+		return isOpField(v)
+	}
+	for _, h := range hosts {
+		core.EachInstr(h, false, func(_ *ssa.Function, in ssa.Instruction) {
+			bo, ok := in.(*ssa.BinOp)
+			if !ok || bo.Op != token.EQL {
+				return
+			}
+			if isOp(bo.X) && isOp(bo.Y) && (isOpField(bo.X) || isOpField(bo.Y)) {
+				sameOp = true
+			}
+		})
+	}
+	simpDecl := simp
+	for _, h := range hosts {
+		n := 0
+		core.EachInstr(h, false, func(_ *ssa.Function, in ssa.Instruction) {
+			if ta, ok := in.(*ssa.TypeAssert); ok && ta.CommaOk && core.ShortType(ta.X.Type()) == "contactql.QueryNode" {
+				n++
+			}
+		})
+		if n >= 2 {
+			simp = h // the function that holds the switch over the child's node type
+			break
+		}
+	}
+	defer func() { simp = simpDecl }()
 	// every simplified child is kept: inside the loop that switches on the child's type, a path back to the loop
 	// header that appends nothing must have failed the assertion for every node type (so it cannot happen)
 	{
